@@ -229,6 +229,15 @@ def run(W, cfg):
             W.ob(f'operand {nm}: same values afterwards', s.value, W.array([x * fu for x in v]))
         else:
             W.ob(f'operand {nm}: same values afterwards', s.value, W.array(list(v)))
+    if method == 'linear':
+        # an ndarray on the left of a result of an operation: still a Spectrum, element-wise on the result's grid (numpy defers to Spectrum)
+        def left_array_ok():
+            import numpy as _np
+            vec = _np.arange(1, len(res.wave) + 1, dtype=float)
+            prod = vec * res
+            return isinstance(prod, type(res)) and bool(_np.allclose(_np.asarray(prod.value, dtype=float), _np.asarray(res.value, dtype=float) * vec, rtol=1e-12, atol=0)) \
+                and isinstance(2 * res, type(res))
+        W.ob_concrete('ndarray * (result of an operation) is a Spectrum with element-wise values', left_array_ok)
     if ua == 'nm' and ub == 'nm' and not vu and not cfg.get('intvalues'):
         # the operands' values edited through the setter (same grids), then the operation again: the new values are used
         va2 = [x * 2 + 1 for x in va]
